@@ -14,6 +14,8 @@ def gen_geom(rng, small=True):
     nparts = 2 if kind == 'disa2' else 1
     def one():
         bl = tuple(rng.choice([7, 8, 9, 10, 12]) if not small else rng.choice([7, 8, 9]) for _ in range(4))
+        if rng.random() < 0.25:
+            bl = (5, rng.choice([5, 6]), rng.choice([5, 6, 7]), bl[3])       # one hash per level-1 block: several master hashes
         db = (rng.choice([2, 4, 7]), rng.choice([7, 8, 9]))
         nblocks = rng.choice([1, 2, 3, 5, 8, 17, 40])
         tail = rng.choice([0, 1, 7, (1 << bl[3]) - 1])
